@@ -3,7 +3,7 @@
 # Applies a seeded fault to /repo, confirms the repository's own suite still passes (81), runs the
 # given quick checks (evidence/replay redirected to scratch), and always reverts /repo afterwards.
 set -u
-PATCH="$1"; shift
+PATCH="$(realpath "$1")"; shift
 cd /verif
 if ! git -C /repo diff --quiet; then echo "SEEDTEST: /repo has uncommitted changes, refusing"; exit 3; fi
 if ! git -C /repo apply --check "$PATCH" 2>/dev/null; then echo "SEEDTEST: patch does not apply to current HEAD: $PATCH"; exit 4; fi
